@@ -107,17 +107,36 @@ func (w *World) runScript(ops []SOp) {
 // Store backs up snapshot i (the harness opens the reference StoreToDisk consumes).
 // mutateAt/script: after the mutateAt-th item callback the script is run from inside the callback.
 func (w *World) Store(i int, dir string, conc int, mutateAt int, script []SOp) error {
+	return w.Store2(i, dir, conc, mutateAt, script, false)
+}
+
+// Store2 with consume=true hands one of the harness's own references to StoreToDisk (no extra Open):
+// in delta mode the snapshot may then be retired and collected while the backup is still running.
+func (w *World) Store2(i int, dir string, conc int, mutateAt int, script []SOp, consume bool) error {
 	w.op()
 	s := w.snaps[i]
-	if !s.snap.Open() {
-		w.Failf("open-result", "Open of snapshot s%d with %d references failed", i, s.refs)
+	if w.pinned == nil {
+		w.pinned = map[int]int{}
 	}
-	w.logf("store(s%d,conc=%d,mutate@%d,%d ops)", i, conc, mutateAt, len(script))
-	if !w.cfg.Delta {
-		s.refs++ // held by StoreToDisk until it returns
-		if w.pinned == nil {
-			w.pinned = map[int]int{}
+	if !consume {
+		if !s.snap.Open() {
+			w.Failf("open-result", "Open of snapshot s%d with %d references failed", i, s.refs)
 		}
+		s.refs++
+	}
+	w.logf("store(s%d,conc=%d,mutate@%d,%d ops,consume=%v)", i, conc, mutateAt, len(script), consume)
+	// model: the reference given to StoreToDisk is released early in delta mode, at the end otherwise
+	releaseModel := func() {
+		s.refs--
+		if s.refs == 0 {
+			before := w.gcFrontier()
+			w.retired[s.sn] = true
+			w.noteFrontierAdvance(before)
+		}
+	}
+	if w.cfg.Delta {
+		releaseModel()
+	} else {
 		w.pinned[i]++
 	}
 	var mu sync.Mutex
@@ -167,13 +186,10 @@ func (w *World) Store(i int, dir string, conc int, mutateAt int, script []SOp) e
 	}
 	if !w.cfg.Delta {
 		w.pinned[i]--
-		s.refs--
-		if s.refs == 0 {
-			before := w.gcFrontier()
-			w.retired[s.sn] = true
-			w.noteFrontierAdvance(before)
-			w.settle()
-		}
+		releaseModel()
+	}
+	if deferred == nil && r.pnc == nil {
+		w.settle()
 	}
 	if deferred != nil {
 		if deferred.sig == "__skip__" {
